@@ -3,6 +3,7 @@ import Ecal.Model.LexerSpec
 import Ecal.Lemmas.LexerPos
 import Ecal.Lemmas.LexerSteps
 import Ecal.Lemmas.LexerInv
+import Ecal.Lemmas.LexTerminates
 import Ecal.Gen.C18
 /-!
 # C18 — tokens, errors and breakpoints carry the true source position
@@ -24,9 +25,15 @@ Proved, for every input and every token the lexer emits:
 * the invariant between tokens (`lexer_pos_invariant_partial`, partial for the same `#` staleness)
   and the loop / scanner lemmas it rests on.
 
+* `lexer_always_closes` — totality: the fuel never runs out, the list ends with EOF or an error token;
+* `errors_carry_token_pos` — a source fact regenerated (go/ast) on every run: errors, messages,
+  stack traces, the except object and break point keys copy Lline / Lpos of one token.
+
 Not proved (tested by the correspondence on every run): that the model equals parser/lexer.go;
-the stale column VALUE after a `#` comment (only classified); `errors_carry_token_pos`,
-break points and `separation_ignores_comments` (case kinds E, B, S).
+the stale column VALUE after a `#` comment (only classified); the EOF token's line (= line of
+the end of input; evaluated per case); that `Pos` is strictly increasing along the token list
+(every phase moves forward — `Pushed` — but the list-level statement is not drawn);
+`separation_ignores_comments` (case kind S); errors / break points at run time (kinds E, B).
 
 Full-strength statement, false as it stands (`hash_comment_column_witness`):
   `∀ input, ∀ t ∈ lex input, t.id ≠ tEOF → t.line = lineOf input t.pos ∧ t.col = colOf input t.pos`.
@@ -227,6 +234,22 @@ example : ((lex [105, 102, 32, 97, 32, 47, 42, 32, 99, 32, 42, 47, 32, 49, 50]).
     fun t => (t.id, t.pos, t.val)) =
     [(63, 0, [105, 102]), (tIDENTIFIER, 3, [97]), (tPRECOMMENT, 7, [32, 99, 32]), (tNUMBER, 13, [49, 50]), (tEOF, 13, [])] := by
   decide +kernel
+
+/-! ## Totality -/
+
+/-- **lexer_always_closes.** For every input the token list is not empty and ends with the EOF token
+    or with an error token. In particular no loop of the model ever runs out of its fuel (`lex`:
+    input length + 2 rounds, every inner loop `size + 2` steps — a run that hit the fuel would end
+    without EOF / error): the theorems above are about the complete token list, not about a
+    truncated one. Proof: every token phase pushes exactly one token and moves forward
+    (`Pushed`), skipWhiteSpace returns false only after pushing EOF (`sws_total`), so the number of
+    rounds is bounded by the number of bytes (`Ecal.Lemmas.LexTerminates`). -/
+theorem lexer_always_closes (input : List Nat) :
+    ∃ t, (lex input).back? = some t ∧ (t.id = tEOF ∨ t.id = tERROR) :=
+  Ecal.Lex.lexer_always_closes input
+
+example : ((lex witnessSrc).back?.map (·.id)) = some tEOF ∧ ((lex [34, 97]).back?.map (·.id)) = some tEOF ∧
+    ((lex [97, 63, 32, 98]).back?.map (·.id)) = some tERROR := by decide +kernel
 
 /-! ## Errors, stack traces and break points copy the token's position (regenerated source fact) -/
 
